@@ -132,6 +132,10 @@ func init() {
 	addSpec(&propSpec{ID: "C07", Level: "exploration", QuickRuns: 1200, ThorRuns: 30000, QuickSecs: 75, ThorSecs: 900})
 	addSpec(&propSpec{ID: "C09", Level: "exploration", Race: true, QuickRuns: 640, ThorRuns: 16000, QuickSecs: 90, ThorSecs: 1200})
 	addSpec(&propSpec{ID: "C14", Level: "exploration", QuickRuns: 1200, ThorRuns: 30000, QuickSecs: 75, ThorSecs: 900})
+	addSpec(&propSpec{ID: "C19", Level: "exploration", QuickRuns: 480, ThorRuns: 12000, QuickSecs: 75, ThorSecs: 900,
+		Real: []string{"the client: cmd/keymaster setupCerts / insertSSHCertIntoAgentORWriteToFilesystem / signers.go (linked as a virtual package generated from the current tree, main() and flag registration dropped), lib/client/twofa, lib/client/sshagent, lib/client/util, net/http client with cookie jar; real x/crypto/ssh/agent protocol over an in-bubble pipe; real files in a per-run home directory"},
+		Stub: []string{"client side: the HTTP transport (recording RoundTripper that serialises each request, keeps the bytes and hands them to the server's real mux), the terminal (a regular file rewritten before each prompt), the SSH agent (x/crypto keyring behind the real agent protocol, with refusal modes and a foreign identity), U2F/HID devices (none)"},
+		Assume: []string{"the client's main() (flag parsing, config-file bootstrap, user lookup) is not run: the run starts at setupCerts with a constructed configuration; the terminal is a regular file the harness rewrites before each prompt; U2F-over-USB second factors are not exercised (no HID device in the bubble)"}})
 	addSpec(&propSpec{ID: "C20", Level: "fault_enumeration", QuickRuns: 480, ThorRuns: 12000, QuickSecs: 75, ThorSecs: 900,
 		Assume: []string{"the subscriber side decodes the notifier's stream with encoding/json exactly as eventmon/monitord.receiveV0 does; the 40-line glue of cmd/keymaster-eventmond (monitor channels -> recorder channels) is not exercised: events are fed to the recorder's public channels directly",
 			"the AWS-role issuing path is not registered without AWS configuration and is not exercised"}})
@@ -226,7 +230,11 @@ func (d *driver) infra(format string, a ...any) int {
 
 func goEnv() []string {
 	env := os.Environ()
-	env = append(env, "GOFLAGS=-mod=mod", "GOPROXY=off", "GOSUMDB=off", "GOTOOLCHAIN=local", "GONOSUMDB=*", "CGO_ENABLED=1")
+	env = append(env, "GOFLAGS=-mod=mod", "GOPROXY=off", "GOSUMDB=off", "GOTOOLCHAIN=local", "GONOSUMDB=*", "CGO_ENABLED=1",
+		// the client packages need libudev.h, which this sandbox lacks: declarations-only stub + .pc file
+		"PKG_CONFIG_PATH="+filepath.Join(verifDir, "third_party", "udevstub"),
+		// pkg-config output is not part of go's cache key; CGO_LDFLAGS is: keeps a cached cgo package built under another path from being reused
+		"CGO_LDFLAGS=-g -O2 -L"+filepath.Join(verifDir, "third_party", "udevstub"))
 	return env
 }
 
@@ -731,8 +739,8 @@ func (e *evidence) absorb(all []result) {
 		e.Coverage["exhaustive"] = false
 		e.Coverage["enumeration_note"] = "histories are sampled by seed; for each sampled history every driver-call position of every synchronisation is faulted (error and crash): that per-history fault space is enumerated completely"
 	}
-	e.Coverage["components_real"] = commonReal
-	e.Coverage["components_stubbed"] = commonStub
+	e.Coverage["components_real"] = append(append([]string{}, commonReal...), specs[e.PropertyID].Real...)
+	e.Coverage["components_stubbed"] = append(append([]string{}, commonStub...), specs[e.PropertyID].Stub...)
 	var zero []string
 	for k, v := range probes {
 		if v == 0 {
